@@ -720,10 +720,28 @@ def run(env):
     constructs = {}
     nontrivial = []
     unevaluated = 0
-    for (it, err), c, case in zip(meta, codes, cases):
+    # a difference must be replayable: every run the models disagree with is executed a second time in a fresh
+    # worker; if the implementation's own observation is not the same twice the run is counted and left out
+    suspects = [k for k, c in enumerate(codes) if c is not None and (c[0] in (1, 7) or c[1] in (1, 7))]
+    again = hard_pmap(impl_run, [meta[k][0] for k in suspects], soft=env.budget(3, 4), hard=env.budget(9, 12), procs=min(V.NPROC, 6)) if suspects else []
+    unstable = set()
+    for k, (st, r2) in zip(suspects, again):
+        same = False
+        if st == "ok":
+            code2, stack2, out2, err2, _ = r2
+            enc2 = [enc_value(v) for v in stack2]
+            same = (code2 == cases[k][3] and out2 == cases[k][5] and err2 == meta[k][1]
+                    and (enc2 == cases[k][4] or any(e is None for e in enc2)))
+        if not same:
+            unstable.add(k)
+    env.note("runs_not_reproducible_on_a_second_execution", {"count": len(unstable), "of_differing": len(suspects),
+                                                              "examples": [list(meta[k][0]) for k in sorted(unstable)[:3]]})
+    for k_case, ((it, err), c, case) in enumerate(zip(meta, codes, cases)):
         src, inputs, fl = it
         if c is None:
             unevaluated += 1
+            continue
+        if k_case in unstable:
             continue
         m, r = c
         key = f"machine:{MEANING.get(m, m)}/reference:{MEANING.get(r, r)}"
